@@ -22,6 +22,7 @@ PLACES = {
     "lid_open": (RW.Box.Lid.open, "Box.Lid.open", lambda v: RW.Box.Lid().open(v), 1),
 }
 WAYPOINTS = {"way", "lid_open"}
+BASE = set(vars(RW))
 ENV = {"top": RW.top, "Outer": RW.Outer, "made": RW.made, "deco": RW.deco, "way": RW.way, "Box": RW.Box}
 
 
@@ -67,7 +68,12 @@ def run_case(c):
         st.instrument_count = 0
         st.captures.clear()
         st._apply(fn)
-    return {"id": c["id"], "place": c["place"], "ref": ref, "ref_err": ref_err, "off": off, "steps": steps}
+    # probing must not leave anything behind in the function's module (ptera's own __ptera* helpers excepted)
+    stray = sorted(str(k) for k in vars(RW) if k not in BASE and not str(k).startswith(("__ptera", "_ptera__")))
+    for k in list(vars(RW)):
+        if k not in BASE and not str(k).startswith(("__ptera", "_ptera__")):
+            del vars(RW)[k]
+    return {"id": c["id"], "place": c["place"], "ref": ref, "ref_err": ref_err, "off": off, "steps": steps, "stray": stray}
 
 
 def main():
